@@ -123,8 +123,14 @@ def symbols(world, S):
         name = 'Foo' + local
         syms.append(S.FS(S.CSYMBOL_TYPE_TYPEDEF, name, base_type=S.FT(S.CTYPE_STRUCT, '_' + name), line=line))
         kids = [S.FS(S.CSYMBOL_TYPE_MEMBER, 'parent', base_type=S.td('gint'), line=line + 1)]
-        for fname, first, nextra in cbs:
+        for ci, (fname, first, nextra) in enumerate(cbs):
             ps = [] if first is None else [S.param('self_', ctype_tree(first))] + [S.param('x%d' % q, S.td('gint')) for q in range(nextra)]
+            if first is not None and (len(name) + ci) % 3 == 0:
+                # the member is declared through a callback typedef ("FooObj0NotifyFunc changed;"): the virtual method takes the member's name
+                tdn = '%sSlot%dFunc' % (name, ci)
+                syms.append(S.cbtypedef(tdn, S.VOID, ps, line=line + 1))
+                kids.append(S.FS(S.CSYMBOL_TYPE_MEMBER, fname, base_type=S.td(tdn), line=line + 2))
+                continue
             kids.append(S.FS(S.CSYMBOL_TYPE_MEMBER, fname, base_type=S.ptr(S.FT(S.CTYPE_FUNCTION, base_type=S.VOID, child_list=ps)), line=line + 2))
         syms.append(S.FS(S.CSYMBOL_TYPE_STRUCT, '_' + name, base_type=S.FT(S.CTYPE_STRUCT, '_' + name, child_list=kids), line=line + 5))
         line += 20
